@@ -2122,6 +2122,8 @@ type (
 	TagDetails struct {
 		Matches, Uncertain bitmask.LongBitmask
 		Conditions         ConditionsSet
+		// the reference time that Conditions was parsed with
+		ReferenceTime time.Time
 	}
 )
 
